@@ -267,7 +267,11 @@ def cell_card(c, expr_style=None):
             sub['imp_groups'] = but['imp_groups']
         toks += cell_option_tokens(sub)
         return toks
-    toks.append(T(itok(c['mat'])))
+    if c.get('mat_zeros'):
+        # the material number written with leading zeros (01, 002, 00)
+        toks.append(T(raw('0' * c['mat_zeros'] + str(int(c['mat'])))))
+    else:
+        toks.append(T(itok(c['mat'])))
     if c['mat'] != 0:
         toks.append(T((str(c['rho']), 'num')))
     gtxt = c.get('expr_text') or expr_text(c['expr'], expr_style)
